@@ -87,7 +87,8 @@ class Profile:
         self.bare_bool_column = True           # `flag` used as a predicate by itself
         self.bare_bool_func = True             # contains(..) used bare
         self.bool_func_cmp = True              # contains(..) eq true
-        self.bool_cmp = True                   # (a gt 1) eq true / flag eq (b lt 2)
+        self.bool_cmp = True                   # flag eq true / contains(..) eq flag
+        self.bool_cmp_atoms = True             # (a gt 1) eq true / flag eq (b lt 2)
         self.null_left = False                 # null eq a
         self.null_cmp = True                   # x eq null / x ne null
         self.null_cmp_expr = True              # (a add 1) eq null
@@ -225,6 +226,13 @@ def gen_bool_operand(rng, p, depth):
         return T.ident(rng.choice(cols))
     if r < 0.5:
         return T.lit("bool", rng.choice(["true", "false"]))
+    if not p.bool_cmp_atoms:
+        fs = _funcs_returning(p, "bool")
+        if not fs:
+            return T.lit("bool", rng.choice(["true", "false"]))
+        name, args = rng.choice(fs)
+        return ("call", name, tuple(gen_arg(rng, p, name, i, a, depth - 1)
+                                    for i, a in enumerate(args)))
     return gen_atom(rng, p, depth, allow_bare_col=False)
 
 
@@ -297,3 +305,68 @@ def gen_leaf_col(rng, p, typ):
 
 def columns_of(t):
     return sorted({n[1] for n in T.walk(t) if n[0] == "id" and not n[2]})
+
+
+def conforms(t, p):
+    """True when term t stays inside the fragment described by profile p (used to keep
+    shrunk witnesses inside the backend's supported fragment)."""
+    NULL = ("lit", "null", "null")
+
+    def boolish(n):
+        return n[0] in ("cmp", "bool") or (n[0] == "un" and n[1] == "not")
+
+    def walk(n, bool_position):
+        k = n[0]
+        if k == "id":
+            if bool_position and not p.bare_bool_column:
+                return False
+            return True
+        if k == "lit":
+            return not bool_position or n[1] == "bool"
+        if k == "list":
+            return all(walk(x, False) for x in n[1])
+        if k == "bool":
+            return walk(n[2], True) and walk(n[3], True)
+        if k == "un":
+            if n[1] == "not":
+                return p.not_op and walk(n[2], True)
+            if n[2][0] == "lit":
+                return p.neg_literal
+            return p.neg and walk(n[2], False)
+        if k == "bin":
+            return n[1] in p.arith and walk(n[2], False) and walk(n[3], False)
+        if k == "cmp":
+            l, r = n[2], n[3]
+            if NULL in (l, r):
+                other = l if r == NULL else r
+                if other[0] == "lit" or not p.null_cmp:
+                    return False
+                if l == NULL and not p.null_left:
+                    return False
+                if other[0] != "id" and not p.null_cmp_expr:
+                    return False
+                return walk(other, False)
+            if n[1] == "in":
+                if not p.in_lists:
+                    return False
+            if (boolish(l) or boolish(r)) and not p.bool_cmp_atoms:
+                return False
+            if l[0] == "lit" and not p.lit_left:
+                return False
+            return walk(l, False) and walk(r, False)
+        if k == "call":
+            if n[1] not in p.funcs:
+                return False
+            if n[1] in ("contains", "startswith", "endswith") and len(n[2]) == 2:
+                pat = n[2][1]
+                if pat[0] == "id" and not p.pattern_columns:
+                    return False
+                if pat[0] not in ("id", "lit") and not p.pattern_exprs:
+                    return False
+                if pat[0] == "lit" and pat[1] == "str" and pat[2] not in p.str_lits \
+                        and any(c in pat[2] for c in "%_") and \
+                        not any(any(c in s for c in "%_") for s in p.str_lits):
+                    return False
+            return all(walk(a, False) for a in n[2])
+        return False
+    return walk(t, True)
